@@ -16,17 +16,32 @@ Class(line, bad) ==
            /\ c.entry \in {"file_rel", "file_rel_default", "data", "reader", "uri_remote"}      \* (it shows only when the root's own location is relative, absent or remote; under an
         THEN "default_name_collision"                                                            \*  absolute file path the two files get different names, and must)
    (* F-C16-2: references inside a callback that lives in an external file are not rewritten      *)
-   ELSE IF c.kind = "callbacks" /\ c.shape \in {"childlocal", "childlocal_shadow", "childpair_local", "selfcycle", "mutualcycle"}     \* (a cycle through a callback is such a local reference)
+   ELSE IF c.kind = "callbacks" /\ c.shape \in {"childlocal", "childlocal_shadow", "childpair_local", "localalias_childlocal", "selfcycle", "mutualcycle"}     \* (a cycle through a callback is such a local reference)
            /\ bad \subseteq {"reloads_without_external_refs", "resolves_to_same_content"}
         THEN "callback_inner_refs_not_internalised"
    (* F-C16-3: a root component that is a whole-file reference to a header / response              *)
-   ELSE IF c.shape = "wholefile" /\ c.pos = "comp" /\ c.kind \in {"headers", "responses"}
+   \*         (any shape whose root reference is of the whole-file form: wholefile, and the whole-file elements with local definitions)
+   ELSE IF c.shape \in {"wholefile", "wholedef", "wholedef_ref", "wholedef_reffrag"} /\ c.u.use.ref.frag = <<>> /\ c.pos = "comp" /\ c.kind \in {"headers", "responses"}
            /\ bad \subseteq {"validates_iff_original", "resolves_to_same_content", "reloads_without_external_refs"}
         THEN "wholefile_component_self_reference"
-   (* F-C16-6 (= F-C02-5 seen from here): a local pointer BELOW a header component loads from a file only through the loader's raw   *)
+   (* F-C16-6 (= F-C02-5 seen from here; repaired, f4a43a7): a local pointer BELOW a header component loads from a file only through the loader's raw   *)
    (*          re-read of the root; the internalised document, loaded from memory, meets the typed walk alone and fails to load      *)
    ELSE IF bad = {"reloads_without_external_refs"} /\ c.u.use.ref.path = <<>> /\ c.u.use.ref.frag # <<>>
            /\ c.u.use.ref.frag[1] = "#compinl" /\ c.u.use.ref.frag[2] = "headers"
         THEN "pointer_below_header_component"
+   (* F-C16-7: the descent of InternalizeRefs stops at a schema / header it has visited before (T.visited), whatever it knew about the     *)
+   (*          parent then: an external object FIRST reached through a local alias of the root (components are walked by name: A -> #/../B,  *)
+   (*          B -> b.json#X) is descended into as if it were local, and when it is reached again as an external object the visited set      *)
+   (*          refuses; its same-document references ("#/components/schemas/Y" of b.json) stay as they are and now mean the ROOT's            *)
+   (*          components: dangling (reload fails) or, when the root owns that name, another object (the conflation universe, which loads     *)
+   (*          correctly only on a Loader that has loaded a.json before).                                                                    *)
+   ELSE IF c.shape = "localalias_childlocal" /\ c.kind \in {"schemas", "headers"}
+           /\ bad \subseteq {"reloads_without_external_refs", "resolves_to_same_content"} THEN "local_alias_hides_external_parent"
+   ELSE IF c.shape = "conflation" /\ c.entry = "file_abs_prior" /\ bad = {"resolves_to_same_content"} THEN "local_alias_hides_external_parent"
+   (* F-C16-8: a document loaded FROM MEMORY (no location of its own) whose component header / response B is a reference into an external  *)
+   (*          file and has a local alias A = {$ref: "#/components/<k>/B"}: after InternalizeRefs B is {$ref: "#/components/<k>/B"}, a          *)
+   (*          reference to itself; the external object is gone (without the alias B becomes a reference to the new component sub_b_X).       *)
+   ELSE IF c.shape = "localalias_childlocal" /\ c.entry \in {"data", "reader"} /\ c.kind \in {"headers", "responses"}
+           /\ bad \subseteq {"resolves_to_same_content", "validates_iff_original"} THEN "aliased_component_self_reference"
    ELSE "none"
 =============================================================================
